@@ -1,9 +1,13 @@
 #!/bin/bash
-# tools/seedtest.sh <prop> <patch> : apply a seeded change to /repo, run the quick check, undo it.
+# tools/seedtest.sh <prop> <patch> : apply a seeded change to a scratch copy of /repo's committed tree (outside /repo
+# and /verif, removed afterwards), run the quick check of <prop> on it. /repo itself is not touched, so this can run
+# while contracts are being edited (the copy is HEAD, not the working tree).
 P=$1; PATCH=$(readlink -f "$2")
-if [ -n "$(git -C /repo status --porcelain)" ]; then echo "refusing: /repo has uncommitted changes"; exit 4; fi
-cd /repo && git apply "$PATCH" || { echo "PATCH DOES NOT APPLY"; exit 3; }
-git diff --stat | tail -1
-cd /verif && ./bin/govc check -prop $P -no-evidence 2>&1 | grep -E "^FAILED|^govc:|KNOWN|^VIOLATION" | cut -c1-260 | tail -6
-[ "$P" = "C18" ] && VERIF_NO_EVIDENCE=1 tools/bounded_c18.sh quick 2>&1 | grep -E "^bounded|^VIOLATION" | cut -c1-260
-cd /repo && git checkout -- . && git status --short | head -3
+SCR=$(mktemp -d /var/tmp/verif_seed_${P}_XXXXXX)
+trap 'rm -rf "$SCR" /verif/replays/$P' EXIT
+git -C /repo archive HEAD | tar -x -C "$SCR"
+( cd "$SCR" && patch -p1 -s < "$PATCH" ) || { echo "PATCH DOES NOT APPLY"; exit 3; }
+echo "applied $(grep -c '^+++' "$PATCH") file(s) to $SCR"
+cd /verif && ./bin/govc check -prop $P -repo "$SCR" -verif /verif -no-evidence 2>&1 | grep -E "^FAILED|^govc:|KNOWN|^VIOLATION" | cut -c1-260 | tail -6
+[ "$P" = "C18" ] && VERIF_REPO="$SCR" VERIF_NO_EVIDENCE=1 tools/bounded_c18.sh quick 2>&1 | grep -E "^bounded|^VIOLATION" | cut -c1-260
+exit 0
